@@ -465,6 +465,18 @@ def reach_pf(S, starts, cut_edges=(), cut_nodes=(), facts0=()):
                     fd[key] = r["vn"]
                 else:
                     fd.pop(key, None)
+                # Poll::Ready(x) built in place (an inlined async helper delivers its result this way): what is known about x
+                # and about the fields of x is known about the payload
+                for k_ in [k_ for k_ in fd if k_[0] == cid and isinstance(k_[1], tuple) and k_[1][0] in ("rdy", "rdyfld") and k_[1][1] == l]:
+                    fd.pop(k_, None)
+                if r.get("vn") == "Ready" and len(r.get("ops", [])) == 1:
+                    pl_ = r["ops"][0].get("m") or r["ops"][0].get("c")
+                    if pl_ and not pl_.get("p"):
+                        if (cid, pl_["l"]) in fd:
+                            fd[(cid, ("rdy", l))] = fd[(cid, pl_["l"])]
+                        for k_, v_ in list(fd.items()):
+                            if k_[0] == cid and isinstance(k_[1], tuple) and k_[1][0] == "fld" and k_[1][1] == pl_["l"]:
+                                fd[(cid, ("rdyfld", l, k_[1][2]))] = v_
             elif r["k"] == "agg" and r.get("ak") == "tuple":
                 fd.pop(key, None)
                 for i_, o_ in enumerate(r["ops"]):
@@ -488,6 +500,17 @@ def reach_pf(S, starts, cut_edges=(), cut_nodes=(), facts0=()):
                     fd[key] = fd[src]
                 else:
                     fd.pop(key, None)
+                # field facts travel with a move of the whole tuple (`x = move (r as Ready).0`, `y = move x`)
+                for k_ in [k_ for k_ in fd if k_[0] == cid and isinstance(k_[1], tuple) and k_[1][0] == "fld" and k_[1][1] == l]:
+                    fd.pop(k_, None)
+                if src is not None and isinstance(src[1], tuple) and src[1][0] == "rdy":
+                    for k_, v_ in list(fd.items()):
+                        if k_[0] == cid and isinstance(k_[1], tuple) and k_[1][0] == "rdyfld" and k_[1][1] == src[1][1]:
+                            fd[(cid, ("fld", l, k_[1][2]))] = v_
+                elif src is not None and not isinstance(src[1], tuple):
+                    for k_, v_ in list(fd.items()):
+                        if k_[0] == cid and isinstance(k_[1], tuple) and k_[1][0] == "fld" and k_[1][1] == src[1]:
+                            fd[(cid, ("fld", l, k_[1][2]))] = v_
             else:
                 fd.pop(key, None)
         t = bl["t"]
